@@ -1,6 +1,8 @@
 package checks
 
 import (
+	"fmt"
+
 	"kmc/core"
 	"kmc/jr"
 )
@@ -101,3 +103,45 @@ func forEachSeq(e *core.Env, alpha []jr.Dir, maxN int, f func(seq []jr.Dir)) {
 }
 
 func cloneDirs(ds []jr.Dir) []jr.Dir { return append([]jr.Dir(nil), ds...) }
+
+// positionChains enumerates every life history of <= maxN steps of two foreign positions
+// (AAPL on the broker account, USD on the checking account): buy, sell out completely
+// (the exact quantity held), a new price for either commodity, and an unrelated CHF
+// booking, one step per consecutive day after the initial prices of 2020-01-01. This
+// reaches the states "closed and reopened", "an earlier position sold out while a later
+// one is open" and "portfolio completely empty" that short free-form journals miss.
+func positionChains(e *core.Env, maxN int, f func(seq []jr.Dir)) {
+	init := []jr.Dir{jr.P("2020-01-01", "AAPL", "100", "USD"), jr.P("2020-01-01", "USD", "0.9", "CHF")}
+	pricesA := []string{"110", "90", "125.5", "80", "101", "99"}
+	pricesU := []string{"0.95", "0.85", "1.05", "0.8", "0.91", "0.89"}
+	var rec func(seq []jr.Dir, depth, qa, qu int)
+	rec = func(seq []jr.Dir, depth, qa, qu int) {
+		if e.Expired() {
+			return
+		}
+		if e.Shard == 0 {
+			e.Count("states")
+			if depth > 0 {
+				e.Count("transitions")
+			}
+		}
+		f(seq)
+		if depth == maxN {
+			return
+		}
+		date := fmt.Sprintf("2020-01-%02d", depth+2)
+		next := func(d jr.Dir, qa, qu int) { rec(append(cloneDirs(seq), d), depth+1, qa, qu) }
+		next(jr.T(date, "buy aapl", jr.B(accOpening, accCash, "3", "AAPL")), qa+3, qu)
+		if qa > 0 {
+			next(jr.T(date, "sell all aapl", jr.B(accCash, accOpening, fmt.Sprint(qa), "AAPL")), 0, qu)
+		}
+		next(jr.T(date, "buy usd", jr.B(accOpening, accChecking, "100", "USD")), qa, qu+100)
+		if qu > 0 {
+			next(jr.T(date, "sell all usd", jr.B(accChecking, accOpening, fmt.Sprint(qu), "USD")), qa, 0)
+		}
+		next(jr.P(date, "AAPL", pricesA[depth%len(pricesA)], "USD"), qa, qu)
+		next(jr.P(date, "USD", pricesU[depth%len(pricesU)], "CHF"), qa, qu)
+		next(jr.T(date, "chf", jr.B(accOpening, accChecking, "10", "CHF")), qa, qu)
+	}
+	rec(init, 0, 0, 0)
+}
